@@ -337,6 +337,44 @@ def directed(rng):
             if st == "peak_shaving" and k9 == 1:
                 o["perfect_foresight"] = False
             out.append((js, st, o))
+    # D10: look-ahead planning with several vehicles behind one connector whose limit binds; the first-planned vehicle is nearly
+    # full on a tapering curve, the others want more than the head room (round-3 seed C04-s8); half the cases with a limit signal
+    for k10 in range(2):
+        n10 = rng.choice([6, 8])
+        start = datetime.datetime(2023, 1, 2, 8, 0)
+        rating = 20
+        js = {"scenario": {"start_time": scen.iso(start), "interval": 60, "n_intervals": n10},
+              "components": {
+                  "vehicle_types": {"car": {"name": "car", "capacity": 40, "charging_curve": [[0, 11], [0.8, 11], [1, rng.choice([1, 2])]],
+                                            "min_charging_power": 0, "battery_efficiency": 0.95}},
+                  "vehicles": {}, "charging_stations": {},
+                  "grid_connectors": {"GC1": {"max_power": rating if k10 == 0 else 10, "cost": {"type": "fixed", "value": 0.3}}},
+                  "batteries": {}, "photovoltaics": {}},
+              "events": {"fixed_load": {}, "local_generation": {}, "vehicle_events": [],
+                         "grid_operator_signals": [{"signal_time": scen.iso(start), "start_time": scen.iso(start), "grid_connector_id": "GC1",
+                                                    "max_power": 10}] if k10 == 0 else []}}
+        for i, s0 in enumerate([rng.choice([0.9, 0.93, 0.95]), 0.2, 0.3][:rng.choice([2, 3])]):
+            js["components"]["vehicles"]["car_%d" % i] = {"vehicle_type": "car", "connected_charging_station": "CS_%d" % i,
+                                                          "estimated_time_of_departure": scen.iso(start + datetime.timedelta(hours=n10 - 1 - i)),
+                                                          "desired_soc": 1.0, "soc": s0}
+            js["components"]["charging_stations"]["CS_%d" % i] = {"max_power": 11, "min_power": 0, "parent": "GC1"}
+        for st in ("balanced_market", "peak_shaving", "balanced", "greedy"):
+            out.append((js, st, {}))
+    # D11: flex_window / schedule with a V2G vehicle and no local surplus (round-3 seed C06-s7: look-ahead must not touch the real battery)
+    for k11 in range(2):
+        js = scen.gen_scenario(rng, n_gc=1, n_veh=2, features={"v2g", "fixed"}, steps=8, interval=60)
+        gid = list(js["components"]["grid_connectors"])[0]
+        start = datetime.datetime.fromisoformat(js["scenario"]["start_time"])
+        for vt in js["components"]["vehicle_types"].values():
+            vt.update({"v2g": True, "v2g_power_factor": rng.choice([0.5, 1]), "discharge_limit": 0.3})
+        for v in js["components"]["vehicles"].values():
+            v.update({"soc": rng.choice([0.7, 0.8]), "desired_soc": 0.9})
+        js["events"]["grid_operator_signals"] = [
+            {"signal_time": scen.iso(start), "start_time": scen.iso(start + datetime.timedelta(hours=k)), "grid_connector_id": gid,
+             "window": bool((k // 2) % 2)} for k in range(0, 8, 2)]
+        js["scenario"]["core_standing_time"] = {"times": [{"start": [22, 0], "end": [5, 0]}], "no_drive_days": [6]}
+        for ls in ("balanced", "greedy"):
+            out.append((js, "flex_window", {"LOAD_STRAT": ls, "ALLOW_NEGATIVE_SOC": True}))
     return out
 
 
@@ -372,6 +410,14 @@ def pool(seed, tier, strategies=None, n_fast=None, n_slow=None, inject=False, fe
                 json.dump({"default_grid_operator": {"january": {"start": "2020-01-01", "end": "2020-01-31",
                                                                   "windows": {"MV": [["08:00", "09:00"]]}}}}, open(p, "w"))
                 recs.append(run_record(js, "peak_load_window", {"time_windows": p, "ALLOW_NEGATIVE_SOC": True}, time_limit=30))
+        # intervals that do not divide an hour (round-3 seed C18-s8: per-hour scaling of the aggregates)
+        rng_odd = random.Random("pool-odd/%d" % seed)
+        for k_odd in range(3 if tier == "quick" else 9):
+            js = scen.gen_scenario(rng_odd, n_gc=1, n_veh=rng_odd.randint(1, 2), features={"generation", "battery", "fixed"},
+                                   steps=rng_odd.choice([5, 8]), interval=rng_odd.choice([45, 40, 20, 45]))
+            for st in ("greedy", "balanced"):
+                if st in strategies:
+                    recs.append(run_record(js, st, {"ALLOW_NEGATIVE_SOC": True}, reports=inject))
         for i in range(n_fast):
             # exact rationals grow with every step: long runs only in the thorough tier
             js = scen.gen_scenario(rng, steps=rng.choice([4, 8, 12, 16]) if (tier == "quick" or i % 4) else None)
